@@ -731,7 +731,7 @@ theorem mlLoop {s : Src} (hs : AsciiThenBoundary s) (L : Nat) (es : List (PatEle
     have hq' := hf.1
     have : nl = false := hnl rfl
     subst this
-    simp only [elemsText, List.nil_append, at_cons, List.length_nil, Nat.add_zero] at hat hf hn
+    simp only [elemsText, List.nil_append, at_cons, List.length_nil, Nat.add_zero] at hat hf hq'
     simp only [excesses, ciAfter] at hci
     obtain ⟨tr, htr⟩ := mlLoop_nil hs n p q' st (mlRole_false hrole) hb hat.1 hf (by omega)
     exact ⟨[], tr, by rw [htr, ← hci]; simp, by simp [MPh]⟩
@@ -752,7 +752,7 @@ theorem mlLoop {s : Src} (hs : AsciiThenBoundary s) (L : Nat) (es : List (PatEle
         · exact Or.inr (isMultiline_tail h)
       cases nl with
       | false =>
-        simp only [elemsText, Bool.false_eq_true, if_false, List.nil_append, List.append_assoc, List.length_append] at hat hf hn
+        simp only [elemsText, Bool.false_eq_true, if_false, List.nil_append, List.append_assoc, List.length_append] at hat hf hq'
         rw [at_append] at hat
         obtain ⟨h123, hbq⟩ := exprText_bnd hs hx hat.1
         obtain ⟨ex, hpe, hme⟩ := hx.parse s p m hs hat.1 (by omega)
@@ -782,11 +782,11 @@ theorem mlLoop {s : Src} (hs : AsciiThenBoundary s) (L : Nat) (es : List (PatEle
         · simp only [MPh]; exact Or.inl ⟨ex, phs, rfl, hme, hrel⟩
       | true =>
         have hLp := hnlL rfl
-        simp only [elemsText, if_true, List.append_assoc, List.length_append] at hat hf hn
+        simp only [elemsText, if_true, List.append_assoc, List.length_append] at hat hf hq'
         rw [at_append, at_append] at hat
         obtain ⟨hsp0, hatx, hrest⟩ := hat
         have hspl : (spacesL (4 * L)).length = 4 * L := by simp [spacesL]
-        rw [hspl] at hatx hrest hf hn
+        rw [hspl] at hatx hrest hf hq'
         have hsp := at_spaces s p (4 * L) hsp0
         obtain ⟨h123, hbq⟩ := exprText_bnd hs hx hatx
         obtain ⟨m2, rfl⟩ : ∃ m2, m = m2 + 1 := ⟨m - 1, by have := exprText_len hx; omega⟩
@@ -847,7 +847,7 @@ theorem mlLoop {s : Src} (hs : AsciiThenBoundary s) (L : Nat) (es : List (PatEle
       cases nl with
       | false =>
         have hroleF := mlRole_false hrole
-        simp only [elemsText, Bool.false_eq_true, if_false, List.nil_append, List.append_assoc, List.length_append] at hat hf hn
+        simp only [elemsText, Bool.false_eq_true, if_false, List.nil_append, List.append_assoc, List.length_append] at hat hf hq'
         rw [at_append] at hat
         obtain ⟨hatv, hrest⟩ := hat
         simp only [excesses, Bool.false_and, Bool.false_eq_true, if_false, List.nil_append] at hci hcf
@@ -880,7 +880,7 @@ theorem mlLoop {s : Src} (hs : AsciiThenBoundary s) (L : Nat) (es : List (PatEle
             ⟨st.elements ++ [.text p (p + v.length) 0 st.role], _, st.commonIndent, roleOf .lineFeed, _⟩ cfin
             (by rw [hnv] at hml'; exact hml') hlast' (fun h => absurd h hes) hL' (fun _ => hLnl hnv) (by simp [mlRole, roleOf])
             (by rw [hnv] at hci; exact hci) (by rw [hnv] at hcf; exact hcf) hb2 (by rw [hnv] at hrest; exact hrest)
-            (by rw [hnv] at hf; rw [← Nat.add_assoc] at hf; exact hf) (by rw [hnv] at hn; omega)
+            (by rw [hnv] at hf; rw [← Nat.add_assoc] at hf; exact hf) (by rw [hnv] at hq'; omega)
           have hesE : es.isEmpty = false := by
             cases es with
             | nil => exact absurd rfl hes
@@ -901,7 +901,7 @@ theorem mlLoop {s : Src} (hs : AsciiThenBoundary s) (L : Nat) (es : List (PatEle
             · simp [hesE, heff]
         · -- the last element
           subst hes
-          simp only [elemsText, List.nil_append, at_cons, List.length_nil, Nat.add_zero] at hrest hf hn
+          simp only [elemsText, List.nil_append, at_cons, List.length_nil, Nat.add_zero] at hrest hf hq'
           have h10 := hrest.1
           have hts := mlSlice_last s v hvok hnv p hatv h10
           have hb2 : Bnd s (p + v.length + 1) := bnd_succ hs h10 (by decide)
@@ -946,7 +946,7 @@ theorem mlLoop {s : Src} (hs : AsciiThenBoundary s) (L : Nat) (es : List (PatEle
             ⟨st.elements ++ [.text p (p + v.length) 0 st.role], _, st.commonIndent, roleOf .placeableStart, _⟩ cfin
             (by rw [hnv] at hml'; exact hml') hlast' (fun h => by cases h) hL' (fun h => by cases h) (by simp [mlRole, roleOf])
             (by rw [hnv] at hci; exact hci) (by rw [hnv] at hcf; exact hcf) hb2 (by rw [hnv] at hrest; exact hrest)
-            (by rw [hnv] at hf; rw [← Nat.add_assoc] at hf; exact hf) (by rw [hnv] at hn; omega)
+            (by rw [hnv] at hf; rw [← Nat.add_assoc] at hf; exact hf) (by rw [hnv] at hq'; omega)
           refine ⟨.text p (p + v.length) 0 st.role :: phs, tr, ?_, ?_⟩
           · rw [hloop]
             have := MPh_ne hrel (by simp)
@@ -964,11 +964,11 @@ theorem mlLoop {s : Src} (hs : AsciiThenBoundary s) (L : Nat) (es : List (PatEle
       | true =>
         have hLp := hnlL rfl
         have hroleT := mlRole_true hrole
-        simp only [elemsText, if_true, List.append_assoc, List.length_append] at hat hf hn
+        simp only [elemsText, if_true, List.append_assoc, List.length_append] at hat hf hq'
         rw [at_append, at_append] at hat
         obtain ⟨hsp0, hatv, hrest⟩ := hat
         have hspl : (spacesL (4 * L)).length = 4 * L := by simp [spacesL]
-        rw [hspl] at hatv hrest hf hn
+        rw [hspl] at hatv hrest hf hq'
         have hsp := at_spaces s p (4 * L) hsp0
         have hbI : Bnd s (p + 4 * L) := by
           have := hsp (4 * L - 1) (by omega)
@@ -986,8 +986,8 @@ theorem mlLoop {s : Src} (hs : AsciiThenBoundary s) (L : Nat) (es : List (PatEle
           rw [step_ls_blank s m st p (4 * L) hroleT (by omega) hsp hatv.1]
           simp only [excesses, Bool.true_and, bne_self_eq_false, Bool.false_eq_true, if_false, List.nil_append] at hci hcf
           have hnv : endsNl ([10] : Bytes) = true := by decide
-          rw [hnv] at hml' hci hcf hrest hf hn
-          simp only [List.length_cons, List.length_nil] at hrest hf hn
+          rw [hnv] at hml' hci hcf hrest hf hq'
+          simp only [List.length_cons, List.length_nil] at hrest hf hq'
           have hb2 : Bnd s (p + 4 * L + 1) := bnd_succ hs hatv.1 (by decide)
           obtain ⟨phs, tr, hloop, hrel⟩ := ih' true m _ q'
             ⟨st.elements ++ [.text (p + 4 * L) (p + 4 * L + 1) 0 .lineStart], st.lastNonBlank, st.commonIndent,
@@ -1062,7 +1062,7 @@ theorem mlLoop {s : Src} (hs : AsciiThenBoundary s) (L : Nat) (es : List (PatEle
               have : v.getLast? = some 32 := by
                 rw [hv2]; simp [spacesL, List.getLast?_replicate]; omega
               simp [endsNl, this]
-            rw [hnv] at hml' hci hcf hrest hf hn
+            rw [hnv] at hml' hci hcf hrest hf hq'
             have hxp := hpl' x (List.mem_cons_self)
             simp only [List.length_nil, Nat.add_zero] at hvlen'
             have hrest' : At s (p + (4 * L + k)) (elemsText L false (.placeable x :: es') ++ [10]) := by
@@ -1082,7 +1082,7 @@ theorem mlLoop {s : Src} (hs : AsciiThenBoundary s) (L : Nat) (es : List (PatEle
                   rw [show p + (4 * L + k) + (elemsText L false (.placeable x :: es')).length + 1 =
                     p + (4 * L + (k + (elemsText L false (.placeable x :: es')).length)) + 1 by omega]
                   exact hf)
-              (by rw [hvlen'] at hn; omega)
+              (by rw [hvlen'] at hq'; omega)
             refine ⟨.text p (p + (4 * L + k)) (4 * L + k) .lineStart :: phs, tr, ?_, ?_⟩
             · rw [hloop]
               have := MPh_ne hrel (by simp)
@@ -1138,7 +1138,7 @@ theorem mlLoop {s : Src} (hs : AsciiThenBoundary s) (L : Nat) (es : List (PatEle
                 rwa [show p + 4 * L + v.length - 1 + 1 = p + 4 * L + v.length by omega] at this
               have hsl := slice_ok (show p + (4 * L + k) ≤ p + 4 * L + v.length by omega) hbc hb2
               rw [step_ls_content s m st p (4 * L) k c _ _ .lineFeed hroleT (by omega) hsp' hc0 hc32 hcont hts (by omega) hsl]
-              rw [hnv] at hml' hci hcf hrest hf hn
+              rw [hnv] at hml' hci hcf hrest hf hq'
               obtain ⟨phs, tr, hloop, hrel⟩ := ih' true m _ q'
                 ⟨st.elements ++ [.text p (p + 4 * L + v.length) (4 * L + k) .lineStart], _,
                   ciStep (4 * L) st.commonIndent k, roleOf .lineFeed, _⟩ cfin
@@ -1167,8 +1167,8 @@ theorem mlLoop {s : Src} (hs : AsciiThenBoundary s) (L : Nat) (es : List (PatEle
                 · simp [hesE, heff]
             · -- the last element
               subst hes
-              rw [hnv] at hrest hf hn hci
-              simp only [elemsText, List.nil_append, at_cons, List.length_nil, Nat.add_zero] at hrest hf hn
+              rw [hnv] at hrest hf hq' hci
+              simp only [elemsText, List.nil_append, at_cons, List.length_nil, Nat.add_zero] at hrest hf hq'
               simp only [excesses, ciAfter] at hci
               have h10 := hrest.1
               have hnu : endsNl (c :: u') = false := by simp only [endsNl, hulast]; exact hnv
@@ -1203,7 +1203,7 @@ theorem mlLoop {s : Src} (hs : AsciiThenBoundary s) (L : Nat) (es : List (PatEle
                   exact ⟨trivial, h10, x, hx, x1, x2, x3⟩
             · -- a placeable follows
               subst hes
-              rw [hnv] at hml' hci hcf hrest hf hn
+              rw [hnv] at hml' hci hcf hrest hf hq'
               have hxp := hpl' x (List.mem_cons_self)
               have h123 : s[p + 4 * L + v.length]? = some 123 := by
                 have := hrest
